@@ -1,7 +1,7 @@
 import BridgeVerif.Translated.ThreadsMainALemmas
 /-! Translated `MainThread.bidding_phase`: the calls on the `BiddingPhase` / `Contract` objects at every sufficiently large
 fuel (from the lemmas of Translated/Auction*.lean), the rendering of the model's actions -/
-namespace Bridge.Translated
+namespace Bridge.Translated.MainA
 open Bridge Bridge.Py Bridge.Generated.PyCore
 
 /-! ## `BiddingPhase(dealer, vul)`, `take_bid`, `contract`, `active_player`, `bid_history` -/
@@ -136,4 +136,4 @@ theorem mt_putAllBut_ops (encRec : BoardRecord → Val) (a : Seat) (m : Str) :
   cases a <;> rfl
 theorem mt_recv_ops (encRec : BoardRecord → Val) (a : Seat) : encMainActs encRec [.recv (.t2m a)] = some [getOp a] := rfl
 
-end Bridge.Translated
+end Bridge.Translated.MainA
